@@ -15,7 +15,7 @@ import (
 
 func init() {
 	Registry["C16"] = Set{
-		Explanation: "Decides structural clauses of hostile-input safety: B1 recover barriers — edf.Decode and the receive worker install a deferred recover (the worker's closes only its connection), and every goroutine started in net/proto, net/handshake and node's network code either has such a barrier or reaches peer-byte handling only through the functions proved by B2; B2 code that runs without a barrier proves its bounds: in the frame cutter the success return is dominated by 'declared length >= 8' and 'buffered >= declared length' and cuts the buffer to the declared length, the header read is dominated by a length guard whose bound is >= 6, every constant index the serve loop applies to a received frame is < 8, the handshake reader indexes only below its guard; the one relational site (tail = buf.B[l:total]) is accepted only in its recognised shape; B3 no length read from the wire reaches an allocator (reflect.MakeSlice/MakeMapWithSize/ArrayOf, make, Buffer.Allocate/Extend) without a dominating comparison against the remaining input or a constant cap whose failing edge leaves; B4 the handshake reader caps the declared message size and arms a read deadline before every read when a timeout is configured; the frame cutter compares the declared length with the node's max message size before it continues buffering. Added while probing: B1 follows dynamic calls through the VTA call graph.",
+		Explanation: "Decides structural clauses of hostile-input safety: B1 recover barriers — edf.Decode and the receive worker install a deferred recover (the worker's closes only its connection), and every goroutine started in net/proto, net/handshake and node's network code either has such a barrier or reaches peer-byte handling only through the functions proved by B2; B2 code that runs without a barrier proves its bounds: in the frame cutter the success return is dominated by 'declared length >= 8' and 'buffered >= declared length' and cuts the buffer to the declared length, the header read is dominated by a length guard whose bound is >= 6, every constant index the serve loop applies to a received frame is < 8, the handshake reader indexes only below its guard; the one relational site (tail = buf.B[l:total]) is accepted only in its recognised shape; B3 no length read from the wire reaches an allocator (reflect.MakeSlice/MakeMapWithSize/ArrayOf, make, Buffer.Allocate/Extend) without a dominating comparison against the remaining input or a constant cap whose failing edge leaves; B4 the handshake reader caps the declared message size and arms a read deadline before every read when a timeout is configured; the frame cutter compares the declared length with the node's max message size before it continues buffering. Added while probing: B1 follows dynamic calls through the VTA call graph. B5 pooled objects across calls — when a function may release a pooled buffer it received as a parameter (directly, through a callee resolved statically or by the VTA call graph, or deferred), no caller releases or re-dispatches the same object on a path compatible with the callee's releasing path; paths are correlated through the nil-ness of the callee's error result (a double release hands one object to two later users: frames of unrelated connections overwrite each other, a request is presented twice or answered with another request's reference).",
 		NotDecided: []string{
 			"re-encode equality of successfully decoded values",
 			"CPU time of decoding, effects on other connections' throughput",
@@ -28,6 +28,7 @@ func init() {
 
 func runC16(p *load.Program, r *core.Report) {
 	c16Barriers(p, r)
+	pooledRelease(p, r, "C16.B5 no-double-release-across-calls", "C16.B5", 15, "buffer", func(*ssa.Function) bool { return true })
 	c16Bounds(p, r)
 	c16Alloc(p, r)
 	c16Caps(p, r)
